@@ -329,7 +329,7 @@ def load_known():
 # ---------------------------------------------------------------------------
 # main
 # ---------------------------------------------------------------------------
-def save_replay(prop, seed, n, script_of, trace, kind, line):
+def save_replay(prop, seed, n, script_of, trace, kind, line, attrs=None):
     d = os.path.join(VERIF, 'replays', '%s-%d-%d' % (prop, seed, n))
     shutil.rmtree(d, ignore_errors=True)
     os.makedirs(d)
@@ -338,7 +338,9 @@ def save_replay(prop, seed, n, script_of, trace, kind, line):
         shutil.copy(sp, os.path.join(d, 'script.txt'))
     shutil.copy(trace, os.path.join(d, 'trace.ndjson'))
     with open(os.path.join(d, 'why.json'), 'w') as f:
-        json.dump({'property': prop, 'kind': kind, 'trace_line': line}, f, indent=1)
+        d0 = {'property': prop, 'kind': kind, 'trace_line': line}
+        d0.update(attrs or {})
+        json.dump(d0, f, indent=1)
     return d
 
 
